@@ -1004,6 +1004,7 @@ func (w *World) rulesLen(out *[]Obligation) {
 		}
 		var results []compRes
 		failed := false
+		inexact := "" // a witness that the sizing value differs from the number of bytes written
 		for _, r := range roots {
 			ms := comps[r]
 			sort.Strings(ms)
@@ -1017,6 +1018,8 @@ func (w *World) rulesLen(out *[]Obligation) {
 				continue
 			}
 			minD := int64(1 << 40)
+			maxD := int64(-(1 << 40))
+			worstMax := ""
 			worst := ""
 			codes := map[string]int{}
 			var rec func(i int) error
@@ -1028,6 +1031,14 @@ func (w *World) rulesLen(out *[]Obligation) {
 					}
 					evals++
 					d := (f - f0) - (G(codes) - g0)
+					if d > maxD {
+						maxD = d
+						var parts []string
+						for _, m := range ms {
+							parts = append(parts, m+":"+sm.ByLabel[m].List[codes[m]])
+						}
+						worstMax = strings.Join(parts, "/")
+					}
 					if d < minD {
 						minD = d
 						var parts []string
@@ -1053,6 +1064,12 @@ func (w *World) rulesLen(out *[]Obligation) {
 			}
 			total += minD
 			results = append(results, compRes{strings.Join(ms, ","), minD, worst})
+			if minD != 0 && inexact == "" {
+				inexact = fmt.Sprintf("%d byte(s) fewer than written for %s", -minD, worst)
+			}
+			if maxD != 0 && inexact == "" {
+				inexact = fmt.Sprintf("%d byte(s) more than written for %s", maxD, worstMax)
+			}
 		}
 		if failed {
 			continue
@@ -1069,6 +1086,55 @@ func (w *World) rulesLen(out *[]Obligation) {
 			add(okc, "R17.len", "lenVec{"+cr.name+"}", lfd, det)
 		}
 		add(total >= 0, "R17.len", "lenVec.total", lfd, fmt.Sprintf("base capacity %d vs %d mandatory bytes; worst-case slack over all objects = %d (>= 0 means append never grows)", f0, g0, total))
+		// R02.strlen: how long is the string Vector returns? `string(b)`, the
+		// reinterpreted slice header and unsafe.String(p, len(b)) span exactly what
+		// was written; unsafe.String(p, n) with another n returns the first n bytes
+		// of the buffer — only right when n always equals the number of bytes written
+		if f0 != g0 && inexact == "" {
+			inexact = fmt.Sprintf("the fixed part is sized %d, %d bytes are written", f0, g0)
+		}
+		strlenSeen := false
+		ast.Inspect(em.Fn.Body, func(n ast.Node) bool {
+			call, ok := n.(*ast.CallExpr)
+			if !ok || len(call.Args) != 2 {
+				return true
+			}
+			se, ok := call.Fun.(*ast.SelectorExpr)
+			if !ok || se.Sel.Name != "String" {
+				return true
+			}
+			pk, ok := se.X.(*ast.Ident)
+			if !ok {
+				return true
+			}
+			if pn, ok := p.Info.Uses[pk].(*types.PkgName); !ok || pn.Imported().Path() != "unsafe" {
+				return true
+			}
+			strlenSeen = true
+			lenArg := call.Args[1]
+			isLenBuf := false
+			if lc, ok := lenArg.(*ast.CallExpr); ok && len(lc.Args) == 1 {
+				if id, ok := lc.Fun.(*ast.Ident); ok && id.Name == "len" && identObj(p.Info, lc.Args[0]) == em.BufObj && em.BufObj != nil {
+					isLenBuf = true
+				}
+			}
+			switch {
+			case isLenBuf:
+				add(true, "R02.strlen", "Vector.strlen", call, "the returned string spans len(buffer): exactly the bytes written")
+			case capExpr != nil && (lenArg == capExpr || (identObj(p.Info, lenArg) != nil && identObj(p.Info, lenArg) == identObj(p.Info, em.MakeCall.Args[2]))):
+				if inexact == "" {
+					add(true, "R02.strlen", "Vector.strlen", call, "the returned string is cut to the sizing value, which equals the number of bytes written for every object (all components exact)")
+				} else {
+					add(false, "R02.strlen", "Vector.strlen", call, "Vector returns the first <sizing value> bytes of its buffer, and the sizing value is "+inexact+": the vector string is cut short or runs into unwritten bytes")
+				}
+			default:
+				add(false, "R02.strlen", "Vector.strlen", call, "the length given to unsafe.String is neither len(buffer) nor the sizing value: undecided")
+			}
+			return true
+		})
+		if !strlenSeen {
+			add(true, "R02.strlen", "Vector.strlen", em.Fn, "the returned string is the buffer itself (conversion or reinterpreted slice header): exactly the bytes written")
+		}
 		_ = ov
 		if w.Extra["lenvec_evaluations"] == nil {
 			w.Extra["lenvec_evaluations"] = 0
